@@ -1,2 +1,5 @@
 SPECIFICATION Spec
+CONSTANTS
+  MaxHist = 4
+  Repeat = TRUE
 CHECK_DEADLOCK FALSE
